@@ -18,7 +18,7 @@ rustflags = ["--cfg", "contentauth_c2pa_rs_verif"]
 EOC
 cp $R2/Cargo.lock $H2/Cargo.lock
 cd $R2 && git apply "$PATCH" || { echo "patch does not apply"; exit 2; }
-cd /verif && VERIF_REPO=$R2 VERIF_HARNESS_DIR=$H2 VERIF_TARGET_DIR=/verif/.build/target2 ./check "$P" --tier "$TIER"; RC=$?
+cd /verif && VERIF_EVIDENCE_DIR=/verif/.build/seed_evidence VERIF_REPO=$R2 VERIF_HARNESS_DIR=$H2 VERIF_TARGET_DIR=/verif/.build/target2 ./check "$P" --tier "$TIER"; RC=$?
 git -C $R2 checkout -q -- .
 # restore generated facts for the real tree
 python3 -c "
